@@ -100,3 +100,11 @@ def b2i2(seq):
     """big-endian value of a sequence of at most two octets (what int.from_bytes gives for m[:2])"""
     n = z3.Length(seq)
     return z3.If(n >= 2, seq[0] * 256 + seq[1], z3.If(n == 1, seq[0], 0))
+
+
+def same_octets(a, b):
+    """a == b for two octet sequences, stated pointwise: equal lengths and equal elements at an arbitrary index (a fresh constant, so
+    the obligation is universally quantified over it). Equivalent to sequence equality, but stays in arithmetic + seq.nth, which
+    both solvers decide where nested extractions of symbolic length make them time out on the equation itself."""
+    k = E.fresh('k')
+    return z3.And(z3.Length(a) == z3.Length(b), z3.Implies(z3.And(k >= 0, k < z3.Length(a)), a[k] == b[k]))
